@@ -2,7 +2,7 @@ CONSTANT Mode = "rows"
 CONSTANT MaxSteps = 3
 CONSTANT MaxZero = 0
 CONSTANT RowCounts = {2, 3, 4}
-CONSTANT NGen = 12
+CONSTANT NGen = 8
 SPECIFICATION Spec
 INVARIANT TypeOK
 INVARIANT Consistent
